@@ -3,7 +3,7 @@
 use crate::core::prng::Rng;
 use crate::core::{Property, Report, Tier, Violation};
 use crate::props::c14::{fit_capacities, gen_sel, gen_set, gen_traffic};
-use crate::simkit::links::{self, Act, Conn, Ev, EvKind, HostAct, Listed, ListedKind, Msg, Net, Sel, UdpBurst, TCP_PORT, UDP_PORT};
+use crate::simkit::links::{self, Act, Conn, Ev, EvKind, HostAct, ListedKind, Msg, Net, Sel, UdpBurst, TCP_PORT, UDP_PORT};
 use crate::simkit::SimCfg;
 use serde::{Deserialize, Serialize};
 use std::collections::{BTreeMap, BTreeSet};
@@ -46,6 +46,12 @@ struct MState {
     recv: Option<usize>,
     /// was certainly held at some point
     was_held: bool,
+}
+
+fn fail(v: &mut Option<Violation>, class: &str, msg: String) {
+    if v.is_none() {
+        *v = Some(Violation::new(class, msg));
+    }
 }
 
 fn pair_of(a: usize, b: usize) -> (usize, usize) {
@@ -126,7 +132,15 @@ impl<'a> Model<'a> {
                         St::Maybe
                     }
                 }
-                St::Released { clock: r, .. } if clock <= r => St::Maybe,
+                // a released message leaves the link at the next tick of the link clock; one whose hold
+                // status was uncertain may also still be travelling with its original latency
+                St::Released { clock: r, certain, .. } => {
+                    if clock > r && (certain || links::certainly_arrived(send, self.lmax, self.tick, m)) {
+                        ms.st
+                    } else {
+                        St::Maybe
+                    }
+                }
                 other => other,
             };
         }
@@ -178,7 +192,9 @@ fn manual_base(rng: &mut Rng, cfg: &mut SimCfg, n: usize, tick_ms: u64) -> (Net,
     let mark_step = hold_step.max(2) + rng.range(2, 6) as u32;
     // background traffic on every link, then the messages that will be held
     let horizon = (mark_step as u64 + 8) * tick_ms;
-    let (mut udp, mut conns) = gen_traffic(rng, n, tick_ms, horizon, rng.usize(0, 6), if rng.chance(1, 3) { 1 } else { 0 });
+    let nb = rng.usize(0, 6);
+    let nc = if rng.chance(1, 3) { 1 } else { 0 };
+    let (mut udp, mut conns) = gen_traffic(rng, n, tick_ms, horizon, nb, nc);
     let k = *rng.pick(&[1usize, 2, 2, 3, 3, 4, 4, 4, 5, 6]);
     let lo = (hold_step.max(2) as u64 - 1) * tick_ms;
     let hi = (mark_step as u64 - 1) * tick_ms - 1;
@@ -212,7 +228,9 @@ fn manual_base(rng: &mut Rng, cfg: &mut SimCfg, n: usize, tick_ms: u64) -> (Net,
 fn cycles_base(rng: &mut Rng, cfg: &mut SimCfg, n: usize, tick_ms: u64) -> Net {
     let run_ticks = rng.range(8, 22);
     let horizon = run_ticks * tick_ms;
-    let (udp, conns) = gen_traffic(rng, n, tick_ms, horizon, rng.usize(3, 16), *rng.pick(&[0usize, 0, 1, 2, 3]));
+    let nb = rng.usize(3, 16);
+    let nc = *rng.pick(&[0usize, 0, 1, 2, 3]);
+    let (udp, conns) = gen_traffic(rng, n, tick_ms, horizon, nb, nc);
     let mut script: Vec<(u32, Act)> = Vec::new();
     let mut hacts: Vec<HostAct> = Vec::new();
     let cycles = rng.usize(1, 3);
@@ -433,11 +451,6 @@ impl Property for C08 {
         let mut max_held_on_a_link = 0usize;
         let mut hol: BTreeMap<(u16, u8), (u64, bool)> = BTreeMap::new();
 
-        let mut fail = |v: &mut Option<Violation>, class: &str, msg: String| {
-            if v.is_none() {
-                *v = Some(Violation::new(class, msg));
-            }
-        };
 
         for (i, e) in tr.evs.iter().enumerate() {
             match &e.kind {
@@ -504,18 +517,12 @@ impl Property for C08 {
                         rep.probes.inc("deliver_target_gone");
                     }
                 }
-                EvKind::Recv(m) | EvKind::Accept { .. } if true => {
+                EvKind::Recv(_) | EvKind::Accept { .. } => {
                     let m = match &e.kind {
                         EvKind::Recv(m) => Some(*m),
                         _ => accept_to_syn.get(&i).copied(),
                     };
-                    let _ = m;
-                    let Some(m) = (match &e.kind {
-                        EvKind::Recv(m) => Some(*m),
-                        _ => accept_to_syn.get(&i).copied(),
-                    }) else {
-                        continue;
-                    };
+                    let Some(m) = m else { continue };
                     let lmin = model.lmin;
                     let Some(ms) = model.msgs.get_mut(&m) else {
                         fail(&mut violation, "Unexpected", format!("receipt of {m:?} at event {} which was never sent", e.seq));
@@ -587,8 +594,8 @@ impl Property for C08 {
                                         maybe.insert(*m);
                                     }
                                 }
-                                St::Released { clock, .. } => {
-                                    if clock >= c {
+                                St::Released { clock, certain, .. } => {
+                                    if clock >= c || (!certain && send.step as u64 * tick + model.lmax > c) {
                                         maybe.insert(*m);
                                     }
                                 }
@@ -633,21 +640,16 @@ impl Property for C08 {
                                 },
                             }
                         }
-                        // SYNs whose connect has not completed by the end of the run are matched by count
+                        // SYNs whose connect never completes within the run carry no identity: matched by count
                         for dir in [(p.0, p.1), (p.1, p.0)] {
                             let anon = anon_syn.get(&dir).copied().unwrap_or(0);
-                            let is_syn = |m: &&Msg| matches!(m, Msg::Syn { .. }) && links::direction(net, m) == dir;
-                            let c_syn = certain.iter().filter(is_syn).filter(|m| !listed.contains(m)).count();
-                            let m_syn = maybe.iter().filter(is_syn).filter(|m| !listed.contains(m)).count();
-                            if anon < c_syn.min(anon + 1) && anon < c_syn {
-                                // fewer anonymous SYNs than certainly in flight and not listed by identity
-                                let unresolved = certain.iter().filter(is_syn).filter(|m| !listed.contains(m)).filter(|m| matches!(m, Msg::Syn { conn } if !ix.conn_ok.contains_key(conn))).count();
-                                if anon < unresolved {
-                                    fail(&mut violation, "LinksMissing", format!("Sim::links at event {} lists {anon} SYNs h{}->h{} without identity, the model has {unresolved} held", e.seq, dir.0, dir.1));
-                                }
+                            let unresolved = |set: &BTreeSet<Msg>| set.iter().filter(|m| matches!(m, Msg::Syn { conn } if !ix.conn_ok.contains_key(conn)) && links::direction(net, m) == dir).count();
+                            let (uc, um) = (unresolved(&certain), unresolved(&maybe));
+                            if anon < uc {
+                                fail(&mut violation, "LinksMissing", format!("Sim::links at event {} lists {anon} SYNs h{}->h{}, the model has {uc} held ones", e.seq, dir.0, dir.1));
                             }
-                            if anon > c_syn + m_syn {
-                                fail(&mut violation, "LinksExtra", format!("Sim::links at event {} lists {anon} unidentified SYNs h{}->h{}, the model has at most {} in flight", e.seq, dir.0, dir.1, c_syn + m_syn));
+                            if anon > uc + um {
+                                fail(&mut violation, "LinksExtra", format!("Sim::links at event {} lists {anon} unidentified SYNs h{}->h{}, the model has at most {} in flight", e.seq, dir.0, dir.1, uc + um));
                             }
                         }
                         for m in &certain {
@@ -655,7 +657,7 @@ impl Property for C08 {
                                 continue;
                             }
                             if let Msg::Syn { conn } = m {
-                                if !ix.conn_ok.contains_key(conn) || anon_syn.values().sum::<usize>() > 0 {
+                                if !ix.conn_ok.contains_key(conn) {
                                     continue; // counted above
                                 }
                             }
@@ -682,7 +684,7 @@ impl Property for C08 {
             let send = &tr.evs[ms.send];
             let due = match ms.st {
                 St::Timed => end_clock >= send.t + model.lmax + 4 * tick,
-                St::Released { clock, .. } => end_clock >= clock + 4 * tick,
+                St::Released { clock, certain, .. } => end_clock >= clock + 4 * tick && (certain || end_clock >= send.t + model.lmax + 4 * tick),
                 St::Held | St::Maybe => false,
             };
             let flows = !matches!(ms.st, St::Held | St::Maybe);
@@ -777,9 +779,6 @@ impl Property for C08 {
         format!("lat={} tcp={} udp={} acts={:?}", if n.cfg.min_latency_us == n.cfg.max_latency_us { "fixed" } else { "range" }, n.conns.len(), n.udp.len(), acts)
     }
 }
-
-#[allow(dead_code)]
-fn _unused(_: Listed) {}
 
 #[cfg(test)]
 mod tests {
